@@ -373,6 +373,15 @@ def rejection_rules(prog, chk, pid):
     g1 = [g for g in ev if g.kind == "guard" and g.d.get("term") == "raise" and any(a[0] == "rel" and a[1] == "NotIn" and unsnap(a[3]).op == "static" and unsnap(a[3]).args[0].endswith("BF2_TAGTYPE_MAP") for a in disjuncts(raise_rel(g)))]
     lookups = [e for e in ev if e.kind == "subscript" and unsnap(e.d["base"]).op == "static" and unsnap(e.d["base"]).args[0].endswith("BF2_TAGTYPE_MAP")]
     ok1 = bool(g1) and bool(lookups) and all(any(dominates(g, l) for g in g1) for l in lookups)
+    if not ok1 and not lookups:
+        # the same rejection spelled with .get(): `info = BF2_TAGTYPE_MAP.get(t); if info is None: raise ...` before info is taken apart
+        def is_map_get(t):
+            mc_ = meth_call(unsnap(t))
+            return bool(mc_) and mc_[1] == "get" and unsnap(mc_[0]).op == "static" and unsnap(mc_[0]).args[0].endswith("BF2_TAGTYPE_MAP") and (len(mc_[2]) == 1 or (len(mc_[2]) == 2 and is_const(mc_[2][1]) and cval(mc_[2][1]) is None))
+
+        g1 = [g for g in ev if g.kind == "guard" and g.d.get("term") == "raise" and any(a[0] == "rel" and a[1] == "Is" and ((is_map_get(a[2]) and (a[3] is NONE or (is_const(unsnap(a[3])) and cval(unsnap(a[3])) is None))) or (is_map_get(a[3]) and a[2] is NONE)) for a in disjuncts(raise_rel(g)))]
+        uses = [e for e in ev if (e.kind == "unpack" and is_map_get(e.d["value"])) or (e.kind == "subscript" and is_map_get(e.d["base"]))]
+        ok1 = bool(g1) and bool(uses) and all(any(dominates(g, u) for g in g1) for u in uses)
     chk.require(ok1, P_("unmapped-tagtype-rejected"), fi.qualname + ".<locals>.emit_bf3comp", "fwtagtype not in BF2_TAGTYPE_MAP -> raise", g1[0].where if g1 else where, "a section whose tag type has no BF3 mapping is rejected before the mapping is used", "a section with an unmapped tag type is not rejected before BF2_TAGTYPE_MAP is indexed")
     g2 = []
     for g in ev:
